@@ -413,7 +413,7 @@ theorem burst_files (s : Sys) (ops : List Op) (inv : InvRec s.fs s.k s.lib) (hs 
       have := (hfile e (mem_gsOf_one levs e hg)).2.1 h1
       rw [this] at h2; cases h2
   unfold Sys.burst
-  simp only [hk, hs, hc, Bool.or_self, Bool.false_eq_true, if_false, hl fsN kN, hrecN, hem fsN, hmo, forgetAll_nil, hrun]
+  simp only [hk, hs, hc, Bool.or_self, Bool.false_eq_true, if_false, hl fsN kN, hrecN, hem fsN, departed_nil _ hmo, forgetAll_nil, hrun]
   simp [forgetAll_nil, hs]
 
 theorem allValid_of_allFile (ops : List Op) : ∀ s : Sys, allFile s ops = true → allValid s ops = true := by
